@@ -48,6 +48,7 @@ def run(rep: Report, tier: str) -> None:
 	rule_d(rep, idx, tier)
 	rule_e(rep, idx, tier)
 	rule_f(rep, idx)
+	rule_g(rep, idx)
 
 
 def _errors_classes(idx: SourceIndex) -> dict[str, object]:
@@ -415,3 +416,33 @@ def rule_f(rep: Report, idx: SourceIndex) -> None:
 					if set(handler_types(h)) & {'Exception', 'BaseException'} and any(isinstance(x, ast.Call) and attr_chain(x.func) == 'ErrorRender' for x in ast.walk(h)):
 						main_ok = True
 	r.check(main_ok, '__main__', (m.relpath, len(m.lines)), 'the __main__ block no longer wraps App(...).run in `except Exception` printing ErrorRender(e)')
+
+
+# ---- (g) raw list subscripts on grammar children -------------------------------------------------------------------------------------
+
+def rule_g(rep: Report, idx: SourceIndex) -> None:
+	"""`self._at(i)` raises Errors.NodeNotFound for a missing child (an application error), but a plain subscript on a child list (`_children(p)[i]`,
+	`self.<list property>[i]`) raises IndexError. Where the grammar does not guarantee that the index exists and no length guard dominates the access,
+	a syntactically valid input makes a raw IndexError escape (node properties are read by ExpandModules outside Procedure's normalisation)."""
+	from checks import c02
+	from vlib.grammar import GrammarModel
+	from vlib.nodemodel import NodeModel
+	r = rep.rule('C07/raw-child-index', 'every constant subscript on a list of grammar children exists in every production of the tag or is length-guarded (else a valid-syntax input raises a raw IndexError instead of an Errors.* class)', floor=10)
+	scratch = Report('C02', rep.tier)
+	nm, gm = NodeModel(idx), GrammarModel()
+	c02.rule_b(scratch, idx, nm, gm)
+	n = 0
+	for rule in scratch.rules:
+		if rule.id != 'C02/selector-index-exists':
+			continue
+		for o in rule.obligations:
+			if '._at(' in o.key and '[' not in o.key.split(':', 1)[1].replace('._at(', ''):
+				continue  # _at raises NodeNotFound: an application error
+			if '[' not in o.key:
+				continue
+			n += 1
+			if o.status == 'violated':
+				r.violate(o.key, (o.file, o.line), o.message.replace('NodeNotFound/IndexError', 'a raw IndexError (not an Errors.* class)'), o.fragment)
+			else:
+				r.ok(o.key, (o.file, o.line))
+	rep.extra_coverage['raw_subscripts_on_children'] = n
